@@ -57,6 +57,20 @@ theorem transform_eq_fips (state data : List UInt32) (hs : state.length = 8) (hd
     transform state data = Spec.compress state data :=
   transform_eq_compress state data hs hd
 
+/-- the result of `Transform` does not depend on the (in C++ uninitialised) initial content of its
+local array `W[16]`: every cell is written before it is read -/
+theorem transform_ignores_uninitialised_W (w0 state data : List UInt32) (hw : w0.length = 16)
+    (hs : state.length = 8) (hd : data.length = 16) :
+    transformFrom w0 state data = Spec.compress state data :=
+  transformFrom_eq_compress w0 state data hw hs hd
+
+/-- the padded message of the spec is a whole number of 64-byte blocks (so `Spec.hashBlocks`, which
+ignores a trailing partial block, consumes all of it) -/
+theorem spec_pad_is_whole_blocks (m : List UInt8) : (Spec.pad m).length % 64 = 0 := by
+  simp only [Spec.pad, Spec.zeroBytes, Spec.be64, List.length_append, List.length_cons, List.length_nil,
+    List.length_replicate, List.length_map, List.length_range]
+  omega
+
 /-- for every way of splitting a message over `update` calls, `finalize` yields the FIPS digest -/
 theorem streaming (chunks : List (List UInt8)) (hlen : chunks.flatten.length < 2 ^ 61) :
     (finalize (chunks.foldl update init)).1 = Spec.sha256 chunks.flatten :=
